@@ -235,7 +235,7 @@ type runner struct {
 func caseLines(o *outcome) []string {
 	c := o.Case
 	begin := "begin mode=rcm"
-	if c.Mode == "rm" {
+	if c.Mode == "rm" || (c.Mode == "pctx" && c.Mgr != "rcm") {
 		begin = "begin mode=rm"
 	} else if c.Grace != "none" && c.Grace != "" && c.Mode == "rcm" {
 		begin += fmt.Sprintf(" grace=%d", graceUnits)
@@ -289,6 +289,22 @@ func (rn *runner) one(c Case, d *lib.Drv) {
 	res.Sample(map[string]any{"case": c, "log_len": len(o.Log)})
 	res.Hit("mode:" + c.Mode)
 	res.Hit(fmt.Sprintf("runners:%d", len(c.Runners)))
+	if c.Mode == "pctx" {
+		res.Hit("pctx-mgr:" + c.Mgr)
+		res.Hit("pctx-ctx:" + c.PKind + "/" + c.PWhen)
+		for _, b := range c.Runners {
+			res.Hit("pctx-ret:" + b.Ret)
+		}
+		for _, e := range o.Log {
+			if e.E == "r.ret" {
+				cl := "reported"
+				if e.V == "nil" || e.V == "c" {
+					cl = "dropped-" + e.V
+				}
+				res.Hit("pctx-returned-class:" + cl)
+			}
+		}
+	}
 	if c.Mode != "rm" {
 		res.Hit(fmt.Sprintf("closers:%d", len(c.Closers)))
 		res.Hit("grace:" + c.Grace)
@@ -368,7 +384,11 @@ func (rn *runner) one(c Case, d *lib.Drv) {
 	}
 	for k, v := range o.Stats {
 		for i := 0; i < v; i++ {
-			res.Hit("add-vs-run-stress:" + k)
+			if c.Mode == "pctx" {
+				res.Hit("pctx-note:" + k)
+			} else {
+				res.Hit("add-vs-run-stress:" + k)
+			}
 		}
 	}
 	if d != nil && c.Mode != "addstress" {
@@ -506,6 +526,27 @@ func main() {
 	for i := 0; i < nRandom; i++ {
 		add(genRandom(r.Fork()))
 	}
+	// caller's-context family (pctx.go): the context given to Run is cancelled / expires / carries a
+	// cause before, while and after the runners return; returned values of every Canceled /
+	// DeadlineExceeded flavour. Quick: a third of the directed product (by seed) + samples.
+	nPCtx := 1500
+	if f.Tier == "thorough" {
+		nPCtx = 12000
+	}
+	if f.Search {
+		nPCtx *= 4
+	}
+	kp := 0
+	enumPCtx(func(c Case) {
+		if f.Tier == "thorough" || f.Search || uint64(kp)%3 == f.Seed%3 {
+			add(c)
+		}
+		kp++
+	})
+	rp := lib.NewRand(f.Seed*131 + 7)
+	for i := 0; i < nPCtx; i++ {
+		add(genPCtx(rp.Fork()))
+	}
 	// real-clock family: the same scenarios on clock.RealClock{} with a 40 ms grace period
 	nReal := 60
 	if f.Tier == "thorough" {
@@ -525,6 +566,15 @@ func main() {
 		i++
 	}
 
+	if only := os.Getenv("VERIF_C12_ONLY"); only != "" { // development aid: run one family (by case mode)
+		var keep []job
+		for _, j := range jobs {
+			if j.c.Mode == only {
+				keep = append(keep, j)
+			}
+		}
+		jobs = keep
+	}
 	workers := runtime.GOMAXPROCS(0)
 	if workers > 12 {
 		workers = 12
